@@ -141,6 +141,28 @@ func genCLI(seed uint64, prop, tier, mode string) *Plan {
 		}
 		p.Objects = append(p.Objects, *o)
 	}
+	// siblings: a certificate and a near copy of it (a few bytes differ; issuer and serial number usually stay
+	// the same, as for a precertificate and its final certificate) - linted in one invocation now and then
+	sibA, sibB := -1, -1
+	if g.Chance(0.4) {
+		for i := range p.Objects {
+			if p.Objects[i].Kind != KCert {
+				continue
+			}
+			var v *ObjSpec
+			if g.Chance(0.5) {
+				v = flipVariant(g, &p.Objects[i])
+			} else {
+				v = tweakVariant(g, &p.Objects[i])
+			}
+			if v != nil && string(v.DER) != string(p.Objects[i].DER) {
+				p.Objects = append(p.Objects, *v)
+				sibA, sibB = i, len(p.Objects)-1
+				nObj = len(p.Objects)
+			}
+			break
+		}
+	}
 	// configurations for -config
 	if g.Chance(0.5) {
 		c := genCfg(g, meta, pick(g, []string{"option", "option", "neutral", "example", "illtyped", "illtyped"}))
@@ -279,7 +301,20 @@ func genCLI(seed uint64, prop, tier, mode string) *Plan {
 				st.Sel.NameFilter = nil
 				st.Sel.ExcludeNames = append(st.Sel.ExcludeNames, "e_zsim_no_such_lint")
 			case "unknown_source":
-				st.Sel.IncludeSources = append(st.Sel.IncludeSources, pick(g, []string{"NoSuchSource", "cabf_br", "RFC"}))
+				bad := pick(g, []string{"NoSuchSource", "cabf_br", "RFC"})
+				if g.Chance(0.5) {
+					st.Sel.IncludeSources = append(st.Sel.IncludeSources, bad)
+				} else {
+					// among the excluded sources, first or last, next to a well-formed list of included ones or not
+					if g.Chance(0.5) {
+						st.Sel.ExcludeSources = append(st.Sel.ExcludeSources, bad)
+					} else {
+						st.Sel.ExcludeSources = append([]string{bad}, st.Sel.ExcludeSources...)
+					}
+					if len(st.Sel.IncludeSources) == 0 && g.Chance(0.6) {
+						st.Sel.IncludeSources = []string{pick(g, realSources)}
+					}
+				}
 			case "bad_regexp":
 				s := pick(g, []string{`(`, `[a-`, `*x`, `(?P<n>`})
 				st.Sel.NameFilter = &s
@@ -366,10 +401,26 @@ func genCLI(seed uint64, prop, tier, mode string) *Plan {
 				st.Format = strings.ToUpper(enc)
 			}
 		}
+		sibStep, sibSwap, sibAt := false, false, 0
+		if sibA >= 0 && nIn >= 2 {
+			sibStep, sibSwap, sibAt = g.Chance(0.5), g.Chance(0.5), g.Intn(nIn-1)
+		}
 		for k := 0; k < nIn; k++ {
 			in := CLIInput{Obj: g.Intn(len(p.Objects)), Enc: enc, Channel: "file"}
 			if cfgAimed >= 0 && k == 0 {
 				in.Obj = cfgAimed
+			}
+			if sibA >= 0 && nIn >= 2 && cfgAimed < 0 && sibStep {
+				// the two siblings next to each other, in either order
+				switch k {
+				case sibAt:
+					in.Obj = sibA
+				case sibAt + 1:
+					in.Obj = sibB
+				}
+				if sibSwap && (k == sibAt || k == sibAt+1) {
+					in.Obj = sibA + sibB - in.Obj
+				}
 			}
 			if stdin {
 				in.Channel = pick(g, []string{"stdin", "stdin-dash"})
